@@ -325,3 +325,163 @@ extern "C" void h_push_auth_nofrom_n2() { pushAuth(false, 2); }
 extern "C" void h_push_auth_from_n2() { pushAuth(true, 2); }
 extern "C" void h_push_auth_from_n1() { pushAuth(true, 1); }
 extern "C" void h_push_auth_from_n0() { pushAuth(true, 0); }
+
+// ------------------------------------------------------------------------------------------------ presence table helpers
+typedef QMap<QString, QXmppPresence> ResMap;
+// pre-state: two contacts (outer slots 0,1) with two resources each (inner slots 0,1); which slots are in use is symbolic
+struct RefPresence { QString bare[2]; bool bareUsed[2]; QString res[2][2]; bool resUsed[2][2]; };
+static void symPresences(QXmppRosterManagerPrivate *d, RefPresence &rp, int nres)
+{
+    for (int i = 0; i < 2; i++) {
+        rp.bare[i] = vpSymString(2);
+        new (&d->presences.cell[i].v) ResMap(); d->presences.key[i] = rp.bare[i];
+        ResMap &inner = d->presences.cell[i].v;
+        for (int j = 0; j < 2; j++) {
+            rp.resUsed[i][j] = false;
+            if (j >= nres) continue;
+            rp.res[i][j] = vpSymString(2);
+            QXmppPresence p; p.setFrom(rp.bare[i] + L("/") + rp.res[i][j]);
+            new (&inner.cell[j].v) QXmppPresence(p); inner.key[j] = rp.res[i][j];
+            bool u = vp_bool(); inner.used[j] = u; rp.resUsed[i][j] = u;
+        }
+        if (nres > 1) vp_assume(!(rp.res[i][0] == rp.res[i][1]));
+        bool u = vp_bool(); d->presences.used[i] = u; rp.bareUsed[i] = u;
+    }
+    vp_assume(!(rp.bare[0] == rp.bare[1]));
+}
+static bool refHasPresence(const RefPresence &rp, const QString &b, const QString &r)
+{
+    for (int i = 0; i < 2; i++) {
+        if (!rp.bareUsed[i] || !(rp.bare[i] == b)) continue;
+        for (int j = 0; j < 2; j++) { if (rp.resUsed[i][j] && rp.res[i][j] == r) return true; }
+    }
+    return false;
+}
+static bool viewHasPresence(const QXmppRosterManagerPrivate *d, const QString &b, const QString &r)
+{
+    for (int i = 0; i < VP_MAP_CAP; i++) {
+        if (!d->presences.used[i] || !(d->presences.key[i] == b)) continue;
+        const ResMap &inner = d->presences.cell[i].v;
+        for (int j = 0; j < VP_MAP_CAP; j++) { if (inner.used[j] && inner.key[j] == r) return true; }
+    }
+    return false;
+}
+static bool viewPresencesEmpty(const QXmppRosterManagerPrivate *d)
+{
+    for (int i = 0; i < VP_MAP_CAP; i++) { if (d->presences.used[i]) return false; }
+    return true;
+}
+
+// ------------------------------------------------------------------------------------------------ (3) session start / end
+// connected: arbitrary earlier view (roster + presences + received flag), arbitrary stream-management outcome,
+// then the answer to the roster request (a full roster with 2 items, or an error)
+static void connected(bool withResult, bool resultIsError)
+{
+    symOwnJid();
+    Mgr m; RefRoster ref; RefPresence rp;
+    symRoster(m.d, ref);
+    symPresences(m.d, rp, 1);
+    const bool recv0 = m.d->isRosterReceived;
+    g_smState = vp_u8(); vp_assume(g_smState <= 2);
+    g_auth = vp_bool();
+    const bool resumed = (g_smState == QXmppClient::ResumedStream);
+    const QString pb = vpSymString(2), pr = vpSymString(2);
+    const bool hadPresence = refHasPresence(rp, pb, pr);
+
+    m->_q_connected();
+
+    if (!resumed) ref.clear();
+    const bool recv1 = resumed ? recv0 : false;
+    vp_assert(m.d->isRosterReceived == recv1, "C12 a session that is not a resumption starts with the roster marked as not received");
+    if (!resumed) vp_assert(viewPresencesEmpty(m.d), "C12 no presence of an earlier session survives into a new session");
+    else vp_assert(viewHasPresence(m.d, pb, pr) == hadPresence, "C12 a resumed session keeps the presence table");
+    const bool expectRequest = !recv1 && g_auth;
+    vp_assert(g_niq == (expectRequest ? 1 : 0), "C12 the roster is requested exactly when it is not yet known on this session");
+    vp_assert(g_nsent == 0 && g_nsig == 0, "C12 connecting sends nothing but the roster request and notifies nothing");
+    if (expectRequest && g_niq == 1) {
+        const QDomElement &r = g_iqSent[0];
+        vp_assert(r.tagName() == L("iq") && r.attribute(L("type")) == L("get"), "C12 the roster request is an iq of type get");
+        QDomElement c = r.firstChildElement();
+        vp_assert(c.tagName() == L("query") && c.namespaceURI() == L("jabber:iq:roster"), "C12 the roster request carries the roster query");
+    }
+    if (!withResult) { checkRoster(m.d, ref); return; }
+    vp_assume(expectRequest && g_iqPromise.has_value());
+    if (resultIsError) {
+        g_iqPromise->finish(QXmppClient::IqResult(QXmppError { QString(), {} }));
+        vp_assert(!m.d->isRosterReceived && g_nsig == 0, "C12 a failed roster request leaves the roster marked as not received");
+        checkRoster(m.d, ref);
+        return;
+    }
+    SymIq q; symRosterIq(q, false, 2);
+    // RFC 6121 2.1.4: a roster result lists the contacts; subscription='remove' only occurs in pushes
+    vp_assume(q.item[0].type != QXmppRosterIq::Item::Remove && q.item[1].type != QXmppRosterIq::Item::Remove);
+    g_iqPromise->finish(QXmppClient::IqResult(q.iq));
+    ref.clear();
+    ref.put(q.item[0].jid, q.item[0].name, q.item[0].type);
+    ref.put(q.item[1].jid, q.item[1].name, q.item[1].type);
+    vp_assert(m.d->isRosterReceived, "C12 the full roster result marks the roster as received");
+    vp_assert(g_nsig == 1 && g_sigKind[0] == SigRosterReceived, "C12 the full roster result is announced once (rosterReceived)");
+    vp_assert(g_nsent == 0 && g_niq == 1, "C12 the full roster result is not answered");
+    checkRoster(m.d, ref);
+}
+extern "C" void h_connected() { connected(false, false); }
+extern "C" void h_connected_result() { connected(true, false); }
+extern "C" void h_connected_error() { connected(true, true); }
+
+extern "C" void h_disconnected()
+{
+    symOwnJid();
+    Mgr m; RefRoster ref; RefPresence rp;
+    symRoster(m.d, ref);
+    symPresences(m.d, rp, 1);
+    const bool recv0 = m.d->isRosterReceived;
+    g_smState = vp_u8(); vp_assume(g_smState <= 2);
+    g_auth = vp_bool();
+    const bool resumable = (g_smState != QXmppClient::NoStreamManagement);
+    const QString pb = vpSymString(2), pr = vpSymString(2);
+    const bool hadPresence = refHasPresence(rp, pb, pr);
+
+    m->_q_disconnected();
+
+    if (!resumable) ref.clear();
+    vp_assert(m.d->isRosterReceived == (resumable ? recv0 : false), "C12 a disconnect that cannot be resumed forgets that the roster was received");
+    if (!resumable) vp_assert(viewPresencesEmpty(m.d), "C12 a disconnect that cannot be resumed clears the presence table");
+    else vp_assert(viewHasPresence(m.d, pb, pr) == hadPresence, "C12 a resumable disconnect keeps the presence table");
+    vp_assert(g_nsent == 0 && g_niq == 0 && g_nsig == 0, "C12 disconnecting sends and notifies nothing");
+    checkRoster(m.d, ref);
+}
+
+// ------------------------------------------------------------------------------------------------ (4) presence table
+// one presence stanza (any type but subscribe, any from) on an arbitrary table
+static void splitJid(const QString &jid, QString &bare, QString &res)
+{
+    int n = jid.size(), cut = -1;
+    for (int i = FROM_MAX - 1; i >= 0; i--) { if (i < n && jid.at(i) == QChar(u'/')) cut = i; }
+    if (cut < 0) { bare = jid; res = QString(); return; }
+    bare = jid.left(cut); res = jid.mid(cut + 1);
+}
+extern "C" void h_presence()
+{
+    symOwnJid();
+    Mgr m; RefRoster ref; RefPresence rp;
+    symRoster(m.d, ref);
+    symPresences(m.d, rp, 2);
+    QXmppPresence p;
+    const QString from = vpSymString(FROM_MAX);
+    unsigned t = vp_u8(); vp_assume(t <= 7 && t != QXmppPresence::Subscribe);
+    p.setFrom(from); p.setType(QXmppPresence::Type(t));
+    const QString pb = vpSymString(FROM_MAX), pr = vpSymString(FROM_MAX);
+    const bool had = refHasPresence(rp, pb, pr);
+    QString bare, res; splitJid(from, bare, res);
+
+    m->_q_presenceReceived(p);
+
+    bool expect = had;
+    const bool relevant = bare.size() > 0 && (t == QXmppPresence::Available || t == QXmppPresence::Unavailable);
+    if (relevant && pb == bare && pr == res) expect = (t == QXmppPresence::Available);
+    vp_assert(viewHasPresence(m.d, pb, pr) == expect, "C12 presence table lists exactly the resources whose latest presence was available");
+    vp_assert(g_nsent == 0 && g_niq == 0, "C12 a presence is not answered by the roster manager");
+    vp_assert(g_nsig == (relevant ? 1 : 0), "C12 presenceChanged is emitted once per available/unavailable presence");
+    if (relevant && g_nsig == 1) vp_assert(g_sigKind[0] == SigPresenceChanged && g_sigA[0] == bare && g_sigB[0] == res, "C12 presenceChanged names contact and resource");
+    checkRoster(m.d, ref);   // presences never touch the contact list
+}
